@@ -435,6 +435,27 @@ def check(rep, drv, seed, n=400, which=('encodeTag', 'encodeLength', 'toBytes', 
             body = bytes(rng.choice(alpha + [rng.choice([65, 66, 67, 68, 97, 0, 255])]) for _ in range(rng.randrange(0, 7)))
             cmp_('alphabetTest', 'KCALPHA %d %s %s' % (len(alpha), ' '.join(map(str, alpha)), ' '.join(map(str, body))),
                  verdict(pcon.PermittedAlphabetConstraint(*alpha), body, None))
+            # the set operations over stub operands with scripted outcomes (0 accepts, 1 raises ValueConstraintError, 2 raises
+            # TypeError): the real _testValue of the real class calls them in its own order
+            outcomes = [rng.choice([0, 0, 1, 1, 1, 2]) if rng.random() < 0.15 else rng.choice([0, 1]) for _ in range(rng.randrange(1, 6))]
+
+            class Stub(pcon.AbstractConstraint):
+                def __init__(self, outcome):
+                    self.outcome = outcome
+                    pcon.AbstractConstraint.__init__(self, 'x')
+
+                def __call__(self, value, idx=None):
+                    if self.outcome == 1:
+                        raise error_.ValueConstraintError(value)
+                    if self.outcome == 2:
+                        raise TypeError('stub')
+            for which_, cls_ in (('inter', pcon.ConstraintsIntersection), ('union', pcon.ConstraintsUnion), ('excl', pcon.ConstraintsExclusion)):
+                obj = cls_(*[Stub(o_) for o_ in outcomes])
+                try:
+                    impl = verdict(obj, 5, None)
+                except TypeError:
+                    impl = ('err', 'TypeError')
+                cmp_(which_ + 'Test', 'KCSET %s %s' % (which_, ' '.join(map(str, outcomes))), impl)
     if 'cerBool' in which:
         import io as _io2
         from pyasn1.codec.cer import decoder as cdec_
